@@ -21,9 +21,18 @@
      aliases  <<[key,data]>>
      expData, timeoutQ, expShardQ   <<[h,ids]>>            schedules (list order preserved)
      workers  <<[a,storage,rew,income,last]>>              x/market Worker (rew,income: micro-coins)
-     pay, kids, bindings, didBal                           x/did tables
+     pay, kids, bindings, didBal                           x/did tables: payment address per did, key did per address,
+                                                           did per bound account (cosmos account, or eip155 "e1", ...)
+     accLists, accIds, accAuths, seeds                     x/did account-did tables and past seeds
+     versions <<[doc, versions]>>                          sid DIDs: the did ("s1" = its root document) and the names of
+                                                           its key documents in rotation order ("s1", "s1_v1", ...)
      faults, faultIdx, fishing                             x/node fault tables
-     delegs, vals                                          the part of x/staking the node hooks read
+     delegs, vals, unbond, redel                           the part of x/staking the node hooks read / the limits they hit
+     vol                                                   the staking hooks' process-global (NOT in the store)
+     pool.reward is RELATIVE to its genesis value (cfg.rewardAge / cfg.toNextAge say where genesis stands, Chain!RewardAge)
+
+   Events name the key that really signed (`signer`: a key did or a sid DOCUMENT) separately from what the request's
+   header claims (`sigmode`); Principal(cfg, s, ev) below is the DID that key belongs to.
 *)
 EXTENDS Util
 
